@@ -305,7 +305,7 @@ func (s *sim) apply(e string) (viols []viol, stop bool) {
 		}
 		var toMerge []applied
 		for _, d := range order {
-			dm := snapshot.NewDBI()
+			dm := snapshot.NewDBISize(512)
 			dm.SetName(d)
 			dm.SetFlags(uint64(s.dflags(d)))
 			ents := byDBI[d]
